@@ -765,6 +765,9 @@ fn push_label(v: &mut Vec<u8>, l: &Label) {
  * this returns None if there was an existing node, *and* it output the compression for the entire
  * suffix (so no more suffixes are needed).
  */
+/* RFC1035 Section 4.1.4: the offset of a compression pointer is 14 bits wide. */
+const COMPRESSION_LIMIT: u16 = 0x4000;
+
 fn push_prefix(
     v: &mut Vec<u8>,
     l: &[Label],
@@ -777,7 +780,8 @@ fn push_prefix(
     let mut child = None;
     if let Some(node) = node {
         for it in &mut node.children {
-            if it.label == *label {
+            /* A compression pointer holds a 14 bit offset: later names cannot refer to this one. */
+            if it.label == *label && it.data < COMPRESSION_LIMIT {
                 child = Some(&mut *it);
             }
         }
@@ -801,7 +805,7 @@ fn push_prefix(
                 children.push_back(r);
                 Some(DomainTree {
                     label: label.clone(),
-                    data: offset as u16,
+                    data: u16::try_from(offset).unwrap_or(u16::MAX),
                     children,
                 })
             }
@@ -823,7 +827,7 @@ fn push_prefix(
                 push_label(v, label);
                 Some(DomainTree {
                     label: label.clone(),
-                    data: offset as u16,
+                    data: u16::try_from(offset).unwrap_or(u16::MAX),
                     children: std::collections::LinkedList::new(),
                 })
             }
